@@ -50,8 +50,9 @@ class _CustomEncoder(json.JSONEncoder):
     """JSON encoder that accepts NumPy arrays."""
     def default(self, obj):
         if (isinstance(obj, np.ndarray) and obj.ndim == 1 and obj.shape[0] <= 10 and
-                obj.dtype.kind != 'c'):
-            # Serialize small arrays in clear text (lists of numbers).
+                obj.dtype.kind != 'c' and obj.dtype.char != 'g'):
+            # Serialize small arrays in clear text (lists of numbers). Complex and long double
+            # items have no JSON number form: these arrays go through the base64 branch below.
             return obj.tolist()
         elif isinstance(obj, np.ndarray):
             obj_contiguous = np.ascontiguousarray(obj)
@@ -60,7 +61,12 @@ class _CustomEncoder(json.JSONEncoder):
         elif obj.__class__.__name__ == 'QByteArray':
             return {'__qbytearray__': _encode_qbytearray(obj)}
         elif isinstance(obj, np.generic):
-            return obj.item()
+            item = obj.item()
+            if isinstance(item, (np.generic, complex)):
+                # No JSON number can hold the value (complex scalars; np.longdouble.item() is the
+                # NumPy scalar itself): save it exactly, as a 0-d array.
+                return self.default(np.asarray(obj))
+            return item
         return super(_CustomEncoder, self).default(obj)  # pragma: no cover
 
 
